@@ -29,9 +29,10 @@ namespace rkcommon {
         struct LocalTask : public Task
         {
           const TASK_T &t;
-          LocalTask(uint32_t nunTasks, TASK_T &&fcn)
+          const INDEX_T first;
+          LocalTask(uint32_t nunTasks, INDEX_T first, TASK_T &&fcn)
 
-              : Task(nunTasks), t(std::forward<TASK_T>(fcn))
+              : Task(nunTasks), t(std::forward<TASK_T>(fcn)), first(first)
           {
           }
 
@@ -40,19 +41,28 @@ namespace rkcommon {
           void ExecuteRange(enki::TaskSetPartition tp, uint32_t) override
           {
             for (auto i = tp.start; i < tp.end; ++i)
-              t(i);
+              t(first + static_cast<INDEX_T>(i));
           }
         };
 
         // a task set's size is an unsigned 32-bit number: a negative count
-        // would wrap around (a count above INT_MAX is not negative)
-        if (!(nTasks > 0))
-          return;
+        // would wrap around (a count above INT_MAX is not negative) and a
+        // count of 2^32 or more does not fit, such a loop runs as a sequence
+        // of task sets
+        const uint32_t maxSetSize = 1u << 30;
 
-        LocalTask task(static_cast<uint32_t>(nTasks),
-                       std::forward<TASK_T>(fcn));
-        scheduleTaskInternal(&task);
-        waitInternal(&task);
+        INDEX_T first = 0;
+        while (first < nTasks) {
+          const auto remaining =
+              static_cast<unsigned long long>(nTasks - first);
+          const uint32_t setSize = remaining > maxSetSize
+              ? maxSetSize
+              : static_cast<uint32_t>(remaining);
+          LocalTask task(setSize, first, std::forward<TASK_T>(fcn));
+          scheduleTaskInternal(&task);
+          waitInternal(&task);
+          first += static_cast<INDEX_T>(setSize);
+        }
       }
 
       template <typename TASK_T>
